@@ -5,7 +5,7 @@
    query engine, one line per case:
      qcase <idx> <tries> <rl> <budget|-> <blocked> <closed0> <fail> <script|-> => <n> <w/r/class>*n <pending> <leak>
        rl      z | nf | na | nfna | wr | nw          (QueryRateLimiting: zero, NotFirst, NotAny, both, WaitOnRetries, NoWaitFirst)
-       script  comma separated point:action, point = pre | w<i> | g<i> | ret, action = reply | cancel | close | block | nop
+       script  comma separated point:action, point = pre | w<i> | g<i> | ret, action = reply | cancel | close | block | nop | stray (a datagram that is not the query's reply)
        outcome datagrams / budget units consumed (- when the limiter is unlimited) / result class
      The model explores every interleaving the script allows; an observed outcome is accepted iff it is in
      the set; the model's transaction and process leak counts are always 0.
@@ -43,7 +43,7 @@ let point_of_tok s =
     let i = int_of_string (String.sub s 1 (String.length s - 1)) in
     match s.[0] with 'w' -> QPWrite (nat_of_int i) | 'g' -> QPGate (nat_of_int i) | _ -> failwith ("point " ^ s) end
 let action_of_tok = function
-  | "reply" -> QAReply | "cancel" -> QACancel | "close" -> QAClose | "block" -> QABlock | "nop" -> QANop
+  | "reply" -> QAReply | "cancel" -> QACancel | "close" -> QAClose | "block" -> QABlock | "nop" -> QANop | "stray" -> QAStray
   | s -> failwith ("action " ^ s)
 let script_of_tok s =
   if s = "-" then [] else
